@@ -11,6 +11,11 @@ hold because the list of effects is what it is. What ties the list to the code i
 run in a child process under `strace -f`, and the traced network / file-modifying syscalls are
 compared with the model's prediction for the same scenario.
 
+w24: `AllowedWrite` names a child of the dictionary directory by ONE NORMAL component (the empty
+name and `.` are out, as `..` was); `Eff.created` says what `create_dir_all` can create — every
+non-root prefix of its argument — and `created_paths_confined` states the honest confinement: allowed
+writes, and ANCESTORS of the configured directories (which lie outside them).
+
 The one piece with content is `file_dict_name`: for every document path the rewritten name is a
 single path component, so the per-document dictionary file cannot be placed outside the configured
 directory (compared with the real function on hostile paths on every run).
@@ -29,7 +34,7 @@ theorem no_network_effect (P : Paths) (h : List Entry) :
   intro e he
   simp only [traceAll, List.mem_flatMap] at he
   obtain ⟨en, hen, hx⟩ := he
-  rcases mem_trace hx with ⟨p, rfl⟩ | rfl | rfl | ⟨doc, rfl | rfl⟩ | rfl | rfl | ⟨rfl, ht⟩ | ⟨rfl, _⟩ | ⟨url, rfl⟩ <;>
+  rcases mem_trace hx with ⟨p, rfl⟩ | ⟨rfl, _⟩ | rfl | ⟨doc, ⟨rfl, _⟩ | rfl⟩ | ⟨rfl, _⟩ | rfl | ⟨rfl, ht⟩ | ⟨rfl, _⟩ | ⟨url, rfl⟩ <;>
     simp [Eff.isNetwork]
   exact ⟨en, hen, ht⟩
 
@@ -43,7 +48,7 @@ theorem writes_confined (P : Paths) (h : List Entry) :
   intro e he p hp
   simp only [traceAll, List.mem_flatMap] at he
   obtain ⟨en, _, hx⟩ := he
-  rcases mem_trace hx with ⟨q, rfl⟩ | rfl | rfl | ⟨doc, rfl | rfl⟩ | rfl | rfl | ⟨rfl, _⟩ | ⟨rfl, _⟩ | ⟨url, rfl⟩ <;>
+  rcases mem_trace hx with ⟨q, rfl⟩ | ⟨rfl, _⟩ | rfl | ⟨doc, ⟨rfl, _⟩ | rfl⟩ | ⟨rfl, _⟩ | rfl | ⟨rfl, _⟩ | ⟨rfl, _⟩ | ⟨url, rfl⟩ <;>
     simp [Eff.written] at hp
   · right; left; exact hp.symm
   · left; exact hp.symm
@@ -60,30 +65,39 @@ theorem fileDictName_single_component (p : List Char) :
   Harper.Effects.fileDictName_single_component p
 
 /-- so the join cannot leave the directory: the per-document dictionary is the directory itself
-(empty name: the root path — creating it fails) or a direct child whose name is not `..` -/
+(empty name: the root path — creating it fails) or a direct child whose name is neither `..` nor
+`.` (w24: the last conjunct about the name is new) -/
 theorem fileDictPath_inside (P : Paths) (doc : List Char) :
     fileDictPath P doc = P.fileDir ∨
-    ∃ n, n ≠ [] ∧ '/' ∉ n ∧ n ≠ ['.', '.'] ∧ fileDictPath P doc = P.fileDir ++ [n] :=
+    ∃ n, n ≠ [] ∧ '/' ∉ n ∧ n ≠ ['.', '.'] ∧ n ≠ ['.'] ∧ fileDictPath P doc = P.fileDir ++ [n] :=
   Harper.Effects.fileDictPath_inside P doc
 
+/-- **When the name is empty.** `file_dict_name` is `""` exactly for the root path (a path without
+a normal component: `file:///`, and — after the URL parser has removed dot segments — `file:///.`,
+`file:///..`, `file:///%2E`); the name `.` cannot occur at all (`fileDictName_single_component`). -/
+theorem fileDictName_empty_iff_root (p : List Char) : fileDictName p = [] ↔ components p = [] :=
+  Harper.Effects.fileDictName_eq_nil_iff p
+
 /-- together: every written path is one of the three configured locations, a direct child of the
-file-dictionary directory, or the directory containing one of them -/
+file-dictionary directory named by ONE NORMAL component (`NormalName`: not empty, no `/`, neither
+`.` nor `..` — w24: `≠ []` and `≠ .` are new, the statement is stronger than before), or the
+directory containing one of them -/
 theorem writes_confined_to_configured (P : Paths) (h : List Entry) :
     ∀ e ∈ traceAll P h, ∀ p, e.written = some p →
       p = P.userDict ∨ p = parent P.userDict ∨ p = P.stats ∨ p = parent P.stats ∨
-      p = P.fileDir ∨ p = parent P.fileDir ∨ ∃ n, '/' ∉ n ∧ n ≠ ['.', '.'] ∧ p = P.fileDir ++ [n] := by
+      p = P.fileDir ∨ p = parent P.fileDir ∨ ∃ n, NormalName n ∧ p = P.fileDir ++ [n] := by
   intro e he p hp
   rcases writes_confined P h e he p hp with h1 | h1 | h1 | h1 | ⟨doc, h1⟩
   · exact Or.inl h1
   · exact Or.inr (Or.inl h1)
   · exact Or.inr (Or.inr (Or.inl h1))
   · exact Or.inr (Or.inr (Or.inr (Or.inl h1)))
-  · rcases fileDictPath_inside P doc with h2 | ⟨n, _, hn1, hn2, h2⟩
+  · rcases fileDictPath_inside P doc with h2 | ⟨n, hn0, hn1, hn2, hn3, h2⟩
     · rcases h1 with h1 | h1
       · right; right; right; right; left; rw [h1, h2]
       · right; right; right; right; right; left; rw [h1, h2]
     · rcases h1 with h1 | h1
-      · right; right; right; right; right; right; exact ⟨n, hn1, hn2, by rw [h1, h2]⟩
+      · right; right; right; right; right; right; exact ⟨n, ⟨hn0, hn1, hn3, hn2⟩, by rw [h1, h2]⟩
       · right; right; right; right; left; rw [h1, h2]; simp [parent]
 
 /-- `writes_confined_to_configured` with everything `file_dict_name` guarantees about the child's
@@ -118,6 +132,79 @@ theorem writes_confined_to_configured_strong (P : Paths) (h : List Entry) :
       · right; right; right; right; right; right
         exact ⟨_, hne, hs, hdd, hd, hl, by rw [h1, h2]⟩
       · right; right; right; right; left; rw [h1, h2]; simp [parent]
+
+/-! ### what `mkdirs` creates (w24)
+
+`Eff.written` names ONE path per effect; `create_dir_all` makes more than one directory. -/
+
+/-- **`create_dir_all` is only ever called for the parent of a NON-ROOT path** (`Path::parent()` of
+`/` is `None`: `save_dict` / `save_stats` then make no directory at all), and only for the three
+kinds of file the server writes. -/
+theorem mkdirs_only_for_parent_of_nonroot (P : Paths) (h : List Entry) :
+    ∀ e ∈ traceAll P h, ∀ d, e = .mkdirs d →
+      ∃ q, q ≠ [] ∧ d = parent q ∧ (q = P.userDict ∨ q = P.stats ∨ ∃ doc, q = fileDictPath P doc) := by
+  intro e he d hd
+  simp only [traceAll, List.mem_flatMap] at he
+  obtain ⟨en, _, hx⟩ := he
+  subst hd
+  rcases mem_trace hx with ⟨q, h1⟩ | ⟨h1, h2⟩ | h1 | ⟨doc, ⟨h1, h2⟩ | h1⟩ | ⟨h1, h2⟩ | h1 | ⟨h1, _⟩ | ⟨h1, _⟩ | ⟨url, h1⟩ <;>
+    simp at h1
+  · exact ⟨_, h2, h1, Or.inl rfl⟩
+  · exact ⟨_, h2, h1, Or.inr (Or.inr ⟨doc, rfl⟩)⟩
+  · exact ⟨_, h2, h1, Or.inr (Or.inl rfl)⟩
+
+/-- the root path as a dictionary file: no `mkdir`, only the attempt to create `/` (which fails) -/
+example : saveDictEff [] = [.createFile []] ∧ saveStatsEff [] = [.appendFile []] ∧
+    saveDictEff [['d']] = [.mkdirs [], .createFile [['d']]] ∧ (Eff.mkdirs []).created = [] := by decide
+
+/-- non-vacuity of `mkdirs_only_for_parent_of_nonroot`: a history with a `mkdirs` effect (the
+shutdown's `create_dir_all` of the statistics file's directory), through the theorem -/
+example : ∃ q, q ≠ [] ∧ [['d']] = parent q ∧
+    (q = [['c'], ['u']] ∨ q = [['d'], ['s']] ∨ ∃ doc, q = fileDictPath ⟨[['c'], ['u']], [['d'], ['f']], [['d'], ['s']]⟩ doc) :=
+  mkdirs_only_for_parent_of_nonroot ⟨[['c'], ['u']], [['d'], ['f']], [['d'], ['s']]⟩ [.startStdio, .shutdown]
+    (.mkdirs [['d']]) (by decide) _ rfl
+
+/-- what `mkdirs p` may create: exactly the non-root prefixes of `p` — `p` itself and its ancestors -/
+theorem mkdirs_created (p q : Path) : q ∈ (Eff.mkdirs p).created ↔ q ≠ [] ∧ q <+: p :=
+  mem_nonRootPrefixes
+
+/-- `created` extends `written`: the written path is among the created ones, except that making
+the root creates nothing -/
+theorem written_mem_created (e : Eff) (p : Path) (h : e.written = some p) : p ∈ e.created ∨ p = [] := by
+  cases e with
+  | createFile q => simp [Eff.written] at h; subst h; left; simp [Eff.created]
+  | appendFile q => simp [Eff.written] at h; subst h; left; simp [Eff.created]
+  | mkdirs q =>
+    simp [Eff.written] at h; subst h
+    by_cases hp : q = []
+    · exact Or.inr hp
+    · exact Or.inl (self_mem_nonRootPrefixes hp)
+  | _ => simp [Eff.written] at h
+
+/-- **Everything created, ancestors included.** Every path an effect of any history may bring into
+existence is one of the three kinds of file, or a NON-ROOT PREFIX of the directory containing the
+user dictionary, of the directory containing the statistics file, or of the file-dictionary
+directory: those directories themselves and their ancestors. The ancestors are OUTSIDE (above) the
+configured directories — that is what `create_dir_all` does, and it is stated, not hidden. -/
+theorem created_confined (P : Paths) (h : List Entry) :
+    ∀ e ∈ traceAll P h, ∀ p ∈ e.created,
+      p = P.userDict ∨ p = P.stats ∨ (∃ doc, p = fileDictPath P doc) ∨
+      (p ≠ [] ∧ (p <+: parent P.userDict ∨ p <+: parent P.stats ∨ p <+: P.fileDir)) := by
+  intro e he p hp
+  simp only [traceAll, List.mem_flatMap] at he
+  obtain ⟨en, _, hx⟩ := he
+  rcases mem_trace hx with ⟨q, rfl⟩ | ⟨rfl, _⟩ | rfl | ⟨doc, ⟨rfl, _⟩ | rfl⟩ | ⟨rfl, _⟩ | rfl | ⟨rfl, _⟩ | ⟨rfl, _⟩ | ⟨url, rfl⟩ <;>
+    simp only [Eff.created, List.mem_singleton, List.not_mem_nil] at hp
+  · exact Or.inr (Or.inr (Or.inr ⟨(mem_nonRootPrefixes.mp hp).1, Or.inl (mem_nonRootPrefixes.mp hp).2⟩))
+  · exact Or.inl hp
+  · obtain ⟨h0, hpre⟩ := mem_nonRootPrefixes.mp hp
+    refine Or.inr (Or.inr (Or.inr ⟨h0, Or.inr (Or.inr ?_)⟩))
+    rcases fileDictPath_inside P doc with h2 | ⟨n, _, _, _, _, h2⟩
+    · rw [h2] at hpre; exact hpre.trans (List.dropLast_prefix _)
+    · rw [h2] at hpre; simpa [parent] using hpre
+  · exact Or.inr (Or.inr (Or.inl ⟨doc, hp⟩))
+  · exact Or.inr (Or.inr (Or.inr ⟨(mem_nonRootPrefixes.mp hp).1, Or.inr (Or.inl (mem_nonRootPrefixes.mp hp).2)⟩))
+  · exact Or.inr (Or.inl hp)
 
 /-! ### non-vacuity and hostile paths -/
 
@@ -182,7 +269,9 @@ to or makes directories for is: the resolution (`resolvePath`, i.e. `~` expanded
 joined to the current directory) of the configured `userDictPath`, or a default file
 (`Config::default()`: user dictionary, statistics file), or the directory containing one of them;
 or the resolution of the configured `fileDictPath` / `statsPath` (or the default dictionary
-directory), its parent, or a direct child of it named by ONE path component (`file_dict_name`). -/
+directory), its parent, or a direct child of it named by ONE NORMAL path component (`file_dict_name`;
+since w24 `AllowedWrite` excludes the empty name and `.` as well as `..`: same theorem name, about
+the tighter predicate). -/
 theorem resolved_paths_confined (e : DirsEnv) (cwd : Path) (c : PathCfg) (P : Paths)
     (hP : fromLspConfig e cwd c = some P) (h : List Entry) :
     ∀ ev ∈ traceAll P h, ∀ p, ev.written = some p → AllowedWrite e cwd c p := by
@@ -193,14 +282,51 @@ theorem resolved_paths_confined (e : DirsEnv) (cwd : Path) (c : PathCfg) (P : Pa
     · exact Or.inl h
     · exact Or.inr (Or.inr ⟨s, h1, h2⟩)
   have hSfile : ConfiguredFile e cwd c P.stats := Or.inr (Or.inl hS)
-  rcases writes_confined_to_configured P h ev hev p hp with h1 | h1 | h1 | h1 | h1 | h1 | ⟨n, hn1, hn2, h1⟩
+  rcases writes_confined_to_configured P h ev hev p hp with h1 | h1 | h1 | h1 | h1 | h1 | ⟨n, hn, h1⟩
   · exact Or.inl ⟨_, hUfile, Or.inl h1⟩
   · exact Or.inl ⟨_, hUfile, Or.inr h1⟩
   · exact Or.inl ⟨_, hSfile, Or.inl h1⟩
   · exact Or.inl ⟨_, hSfile, Or.inr h1⟩
   · exact Or.inr ⟨_, hF, Or.inl h1⟩
   · exact Or.inr ⟨_, hF, Or.inr (Or.inl h1)⟩
-  · exact Or.inr ⟨_, hF, Or.inr (Or.inr ⟨n, hn1, hn2, h1⟩)⟩
+  · exact Or.inr ⟨_, hF, Or.inr (Or.inr ⟨n, hn, h1⟩)⟩
+
+/-- **Created paths are confined — to the configured locations AND THEIR ANCESTORS.** For every
+accepted configuration, every path any handler may bring into existence (`Eff.created`: files
+created / appended to, and EVERY directory `create_dir_all` may make) is an allowed write, or a
+non-root ancestor of an allowed root (the directory containing a configured file, or the configured
+dictionary directory). The second alternative is real: missing ancestors of a configured directory
+are created OUTSIDE it (see the example below: `/a` for `userDictPath = /a/b/d`). -/
+theorem created_paths_confined (e : DirsEnv) (cwd : Path) (c : PathCfg) (P : Paths)
+    (hP : fromLspConfig e cwd c = some P) (h : List Entry) :
+    ∀ ev ∈ traceAll P h, ∀ p ∈ ev.created, AllowedCreate e cwd c p := by
+  intro ev hev p hp
+  obtain ⟨hU, hF, hS⟩ := fromLspConfig_fields hP
+  have hUfile : ConfiguredFile e cwd c P.userDict := by
+    rcases hU with h | ⟨s, h1, h2⟩
+    · exact Or.inl h
+    · exact Or.inr (Or.inr ⟨s, h1, h2⟩)
+  have hSfile : ConfiguredFile e cwd c P.stats := Or.inr (Or.inl hS)
+  rcases created_confined P h ev hev p hp with h1 | h1 | ⟨doc, h1⟩ | ⟨h0, h1 | h1 | h1⟩
+  · exact Or.inl (Or.inl ⟨_, hUfile, Or.inl h1⟩)
+  · exact Or.inl (Or.inl ⟨_, hSfile, Or.inl h1⟩)
+  · rcases fileDictPath_inside P doc with h2 | ⟨n, hn0, hn1, hn2, hn3, h2⟩
+    · exact Or.inl (Or.inr ⟨_, hF, Or.inl (by rw [h1, h2])⟩)
+    · exact Or.inl (Or.inr ⟨_, hF, Or.inr (Or.inr ⟨n, ⟨hn0, hn1, hn3, hn2⟩, by rw [h1, h2]⟩)⟩)
+  · exact Or.inr ⟨h0, _, Or.inl ⟨_, hUfile, rfl⟩, h1⟩
+  · exact Or.inr ⟨h0, _, Or.inl ⟨_, hSfile, rfl⟩, h1⟩
+  · exact Or.inr ⟨h0, _, Or.inr hF, h1⟩
+
+/-- the same for what the DRIVER reports and the harness observes (`dirsCreated`, ops `effmk` /
+`mkd`): every directory made on a file system with the directories `existing` is the `..`-resolved
+form of an allowed creation, and was not there before -/
+theorem dirs_created_confined (e : DirsEnv) (cwd : Path) (c : PathCfg) (P : Paths)
+    (hP : fromLspConfig e cwd c = some P) (h : List Entry) (existing : List Path) :
+    ∀ q ∈ dirsCreated existing (traceAll P h),
+      (∃ p, AllowedCreate e cwd c p ∧ q = normDots [] p) ∧ q ≠ [] ∧ ∀ x ∈ existing, ¬ q <+: x := by
+  intro q hq
+  obtain ⟨⟨d, hd, r, hr, rfl⟩, hex⟩ := mem_dirsCreated hq
+  exact ⟨⟨r, created_paths_confined e cwd c P hP h _ hd r hr, rfl⟩, hex⟩
 
 /-! ### non-vacuity, the quirks, and why tilde expansion matters -/
 
@@ -264,12 +390,90 @@ example :
       · revert hp; decide
       · simp at hs; subst hs; revert hp; decide
     · rcases hd with rfl | ⟨s, hs, rfl⟩
-      · rcases hp with hp | hp | ⟨n, _, _, hp⟩
+      · rcases hp with hp | hp | ⟨n, _, hp⟩
         · revert hp; decide
         · revert hp; decide
         · have := congrArg List.length hp
           simp [absoluteOnly, cwdW, components, splitSlash, defaultPaths, dataDir, xdgOr, envH] at this
       · simp at hs
   · exact Or.inl ⟨[['h'], ['d']], Or.inr (Or.inr ⟨['~', '/', 'd'], rfl, by decide⟩), Or.inl rfl⟩
+
+
+/-! ### w24: the tighter `AllowedWrite`, and the ancestors -/
+
+/-- `{"userDictPath": "/a/b/d"}` -/
+def cfgDeep : PathCfg := ⟨some (.str ['/', 'a', '/', 'b', '/', 'd']), none, none⟩
+
+/-- **The tightening is real**: below the (default) dictionary directory `d`, the paths `d ++ [""]`,
+`d ++ ["."]` and `d ++ [".."]` are NOT allowed writes (the first two were before w24), a child with
+a normal name is. -/
+example :
+    let d := (defaultPaths envH).fileDir
+    ¬ AllowedWrite envH cwdW cfgDeep (d ++ [[]]) ∧ ¬ AllowedWrite envH cwdW cfgDeep (d ++ [['.']]) ∧
+    ¬ AllowedWrite envH cwdW cfgDeep (d ++ [['.', '.']]) ∧ AllowedWrite envH cwdW cfgDeep (d ++ [['x', '%']]) := by
+  have key : ∀ n, ¬ NormalName n → ¬ AllowedWrite envH cwdW cfgDeep ((defaultPaths envH).fileDir ++ [n]) := by
+    intro n hn h
+    rcases h with ⟨q, hq, hp⟩ | ⟨d, hd, hp⟩
+    · have hl : q.length ≤ 5 := by
+        rcases hq with rfl | rfl | ⟨s, hs, rfl⟩
+        · decide
+        · decide
+        · simp [cfgDeep] at hs; subst hs; decide
+      have h6 : ((defaultPaths envH).fileDir ++ [n]).length = 6 := by
+        simp [defaultPaths, dataDir, xdgOr, envH]
+      rcases hp with hp | hp
+      · rw [hp] at h6; omega
+      · rw [hp] at h6; simp [parent] at h6; omega
+    · rcases hd with rfl | ⟨s, hs, rfl⟩
+      · rcases hp with hp | hp | ⟨m, hm, hp⟩
+        · have := congrArg List.length hp; simp at this
+        · have := congrArg List.length hp; simp [parent] at this; omega
+        · have := List.append_cancel_left hp
+          simp at this; subst this; exact hn hm
+      · simp [cfgDeep] at hs
+  refine ⟨key _ (by simp [NormalName]), key _ (by simp [NormalName]), key _ (by simp [NormalName]), ?_⟩
+  exact Or.inr ⟨_, Or.inl rfl, Or.inr (Or.inr ⟨['x', '%'], by simp [NormalName], rfl⟩)⟩
+
+/-- **Ancestors are created outside the configured directory** — non-vacuity of
+`created_paths_confined` and the honest half of its statement. `userDictPath = /a/b/d`: the
+configuration is accepted; `HarperAddToUserDict` makes `create_dir_all(/a/b)`, which may create `/a`
+and `/a/b` (both in `created`); `/a/b` is an allowed write (the directory containing the
+dictionary), `/a` is NOT — it is an allowed CREATION only as an ancestor; the theorem yields both.
+On a machine where `/a` is missing and `/h` exists, the driver's `dirsCreated` lists `/a`, `/a/b`. -/
+example : ∃ P, fromLspConfig envH cwdW cfgDeep = some P ∧
+    Eff.mkdirs [['a'], ['b']] ∈ traceAll P [.addUser ['/', 'x'] true false] ∧
+    (Eff.mkdirs [['a'], ['b']]).created = [[['a']], [['a'], ['b']]] ∧
+    AllowedWrite envH cwdW cfgDeep [['a'], ['b']] ∧ ¬ AllowedWrite envH cwdW cfgDeep [['a']] ∧
+    AllowedCreate envH cwdW cfgDeep [['a']] ∧
+    dirsCreated [[['h']]] (traceAll P [.addUser ['/', 'x'] true false]) = [[['a']], [['a'], ['b']]] ∧
+    dirsCreated [[['a']]] (traceAll P [.addUser ['/', 'x'] true false]) = [[['a'], ['b']]] := by
+  refine ⟨_, rfl, by decide, by decide, ?_, ?_, ?_, by decide, by decide⟩
+  · exact Or.inl ⟨[['a'], ['b'], ['d']], Or.inr (Or.inr ⟨_, rfl, by decide⟩), Or.inr (by decide)⟩
+  · intro h
+    rcases h with ⟨q, hq, hp⟩ | ⟨d, hd, hp⟩
+    · rcases hq with rfl | rfl | ⟨s, hs, rfl⟩
+      · revert hp; decide
+      · revert hp; decide
+      · simp [cfgDeep] at hs; subst hs; revert hp; decide
+    · rcases hd with rfl | ⟨s, hs, rfl⟩
+      · rcases hp with hp | hp | ⟨n, _, hp⟩
+        · revert hp; decide
+        · revert hp; decide
+        · have := congrArg List.length hp
+          simp [defaultPaths, dataDir, xdgOr, envH] at this
+      · simp [cfgDeep] at hs
+  · exact created_paths_confined envH cwdW cfgDeep _ rfl [.addUser ['/', 'x'] true false]
+      (.mkdirs [['a'], ['b']]) (by decide) _ (by decide)
+
+/-- `..` in a configured path: `create_dir_all(/w/../s/f)` makes `/w` (if missing), then — through
+`/w/..`, the root — `/s` and `/s/f`; lexical resolution is what the kernel does here because every
+component before a `..` has just been made a real directory -/
+example : dirsCreated [[['w']]] [.mkdirs [['w'], ['.', '.'], ['s'], ['f']]] = [[['s']], [['s'], ['f']]] ∧
+    dirsCreated [] [.mkdirs [['w'], ['.', '.'], ['s']]] = [[['w']], [['s']]] := by decide
+
+/-- `file_dict_name` of the root path and of paths that have no normal component is empty, of
+anything else not; `.` never comes out -/
+example : fileDictName ['/'] = [] ∧ fileDictName ['/', '.', '/', '/', '.'] = [] ∧
+    fileDictName ['/', '.', '.'] = ['.', '.', '%'] ∧ fileDictName ['/', '.', 'a'] = ['.', 'a', '%'] := by decide
 
 end Harper.C10
